@@ -825,6 +825,10 @@ def check(ctx):
     d = default_of(ctx.fn(AL + 'align'), 'join')
     if d != const('outer'):
         ctx.violated('R2', ctx.fn(AL + 'align'), 'def align(join=...)', "align defaults to join='outer'")
+    # Axis.union / intersection branch on is_monotonic: the ordered-ness predicates decide what their names say (shared with C02)
+    from . import c02 as _c02
+    ctx.rule('R16', 'is_monotonic / _is_ordered family (shared with C02)', 6)
+    _c02.rule_predicates(Renamed(ctx, {'*': 'R16'}))
     ctx.not_decided += ['order of the union for mixed int/float kinds', 'NaN fill values (C07)', 'np.isin / np.union1d semantics (trusted)']
     ctx.trusted += ['np.isin(x, y) is a membership mask over x; np.union1d is the sorted unique union; np.concatenate keeps all elements in order']
     return EXPLANATION
